@@ -249,6 +249,7 @@ JudgePosWithdraw(s, h, e, p) ==
        C08_withdraw_deletes    |-> G(good, /\ DOMAIN Pos(p) = DOMAIN Pos(s) \ {e.pid}
                                            /\ \A q \in DOMAIN Pos(p) : Pos(p)[q] = Pos(s)[q]
                                            /\ Farms(p) = Farms(s)),
+       C09_emergency_exit_available |-> G(known /\ e.sender = pp.owner /\ e.emergency /\ e.funds = <<>>, e.ok),
        C09_zero_after_unlock   |-> G(good /\ e.emergency /\ expired, paid = pp.amt),
        C09_bound               |-> G(good /\ emerg /\ clean, F!PenaltyBoundOK(penObs, pp.amt)),
        C09_formula             |-> G(good /\ emerg /\ clean, F!PenaltyFormulaOK(penObs, pp.amt, pp.dur, rem, s.fm.cfg.penalty, w)),
